@@ -124,11 +124,84 @@ func c15Func(c *Ctx, fd *ast.FuncDecl) {
 		return
 	}
 	v := c.view(fd)
-	if len(paths) != 1 || len(paths[0].Conds()) != 0 {
+	// a shortcut for the empty container (`if len(spine) == 0 { return … }`) is set aside: it must return what the main path returns and
+	// start nothing; the main path is then the one on which the container is non-empty
+	emptyTest := func(cd Cond) (isTest, empty bool) {
+		b, ok := cd.T.(TBin)
+		if !ok {
+			return false, false
+		}
+		x, y, op := b.X, b.Y, b.Op
+		if _, isK := constInt(x); isK {
+			x, y = y, x
+			op = map[token.Token]token.Token{token.LSS: token.GTR, token.GTR: token.LSS, token.LEQ: token.GEQ, token.GEQ: token.LEQ, token.EQL: token.EQL, token.NEQ: token.NEQ}[op]
+		}
+		k, isK := constInt(y)
+		if !isK || !v.isCountOfRecv(x) {
+			return false, false
+		}
+		switch {
+		case op == token.EQL && k == 0, op == token.LEQ && k == 0, op == token.LSS && k == 1:
+			return true, cd.Truth
+		case op == token.NEQ && k == 0, op == token.GTR && k == 0, op == token.GEQ && k == 1:
+			return true, !cd.Truth
+		}
+		return false, false
+	}
+	var mains, shortcuts []*Path
+	for _, p := range paths {
+		isShort, other := false, false
+		for _, cd := range p.Conds() {
+			if isT, empty := emptyTest(cd); isT {
+				if empty {
+					isShort = true
+				}
+			} else {
+				other = true
+			}
+		}
+		if other {
+			skel.Undecided("the async method decides on something other than the emptiness of the container (%d paths)", len(paths))
+			return
+		}
+		if isShort {
+			shortcuts = append(shortcuts, p)
+		} else {
+			mains = append(mains, p)
+		}
+	}
+	if len(mains) != 1 {
 		skel.Undecided("the async method is not a single straight-line path around one spawning loop (%d paths)", len(paths))
 		return
 	}
-	p := paths[0]
+	p := mains[0]
+	for _, sp := range shortcuts {
+		okShort := sp.End == "return" && len(sp.Vals) == len(p.Vals)
+		for i := range sp.Vals {
+			okShort = okShort && i < len(p.Vals) && (sameTerm(sp.Vals[i], p.Vals[i]) || (v.isSelf(sp.Vals[i]) && v.isSelf(p.Vals[i])))
+		}
+		for _, st := range sp.Effects() {
+			isCtor := st.Kind == "call" && st.Call != nil && st.Call.Fun != nil && st.Call.Fun.Pkg() == c.Types && (st.Call.Fun.Name() == "NewListOf" || st.Call.Fun.Name() == "NewObject" || st.Call.Fun.Name() == "NewList" || st.Call.Fun.Name() == "Init")
+			if !isCtor && st.Kind != "store" {
+				okShort = false
+			}
+		}
+		if !okShort {
+			skel.Fail("the shortcut for the empty container does not return what the main path returns, or does more than create the result")
+			return
+		}
+	}
+	if len(shortcuts) > 0 {
+		// strip the (false) emptiness tests from the main path: they carry no effect
+		q := *p
+		q.Steps = nil
+		for _, st := range p.Steps {
+			if st.Kind != "cond" {
+				q.Steps = append(q.Steps, st)
+			}
+		}
+		p = &q
+	}
 	isMap := strings.HasPrefix(fd.Name.Name, "Map")
 	var userFn types.Object
 	for _, f := range fd.Type.Params.List {
